@@ -1679,6 +1679,108 @@ class C14(Spec):
         return res
 
 
+
+class C19(Spec):
+    pid = "C19"
+    coq_files = ["Properties/C19.v"]
+    theorems = ["C19_confined", "C19_interrupted_unpack_has_no_marker", "C19_failed_unpack_has_no_marker",
+                "C19_retry_is_a_clean_unpack", "C19_completed_unpack_has_marker"]
+    level_text = ("Theorems about a file-system model of unpack_package / fetch_is_ok / the retry in fetch_package, for every archive "
+                  "(absolute paths, `..`, other crates' directories, a carried completion marker) and every cut point k: nothing outside "
+                  "the crate's own directory changes; an interrupted or failed unpack never leaves a valid marker; the next fetch "
+                  "therefore unpacks from scratch and equals a clean unpack. The order of the steps (stale-directory removal, prefix "
+                  "check before unpack_in, marker after the loop) and the skipping of carried `.cargo-ok` entries are re-read from "
+                  "the source by the translator. PARTIAL: tar::Entry::unpack_in is specified (skips `..`, never writes through a "
+                  "symlink leaving the destination), not verified; power-loss ordering of sync_all is not modelled.")
+    level_note = ("The implementation is exercised with real .crate files (hostile names written as raw header bytes, symlinks, hard links, "
+                  "lying size fields) cut at arbitrary byte offsets, through the real Cache::fetch_package on a temp cache with CARGO_HOME "
+                  "redirected; the directory tree is inspected before/after. The original defect (archive carrying its own marker) was "
+                  "repaired by a `fix:` commit.")
+    design_ref = "DESIGN.md §4 C19"
+    rule = ("generated archives: 2-6 benign files plus (55%) 1-3 hostile entries (the marker itself at top level or nested, `../x`, "
+            "`prefix/../x`, absolute paths, another crate's directory, a sibling directory sharing the prefix string, symlink-then-file "
+            "through it, hard link, duplicate entry, size field larger than the data, empty dir), 70% truncated at a random byte offset "
+            "or block boundary; each case: fetch the cut archive, retry with the intact one, then a reference unpack into a fresh "
+            "directory; non-trivial = a hostile entry or a cut")
+    projection_doc = "(no model/implementation projection: the model is tied to the code by the translator's shape facts; the implementation is checked directly)"
+    assumptions = ["tar 0.4 unpack_in behaves as specified", "the test runs on a local file system (no NFS)"]
+    quick_n = 150
+    thorough_n = 3000
+
+    def model_modules_paths(self):
+        return ["Unpack"]
+
+    def gen_cases(self, rng, n):
+        return [gen.gen_unpack_case(rng, f"u{i}") for i in range(n)]
+
+    def run(self, rng, tier, work, model_ok=True, ncases=None, replay=None):
+        n = ncases or (self.quick_n if tier == "quick" else self.thorough_n)
+        if replay:
+            with open(replay) as f:
+                r = json.load(f)
+            cases = [r.get("case", r)]
+            cases[0].setdefault("id", "replay")
+        else:
+            cases = load_corpus(self.pid) + self.gen_cases(rng, n)
+        obs = vetlib.run_harness(cases, os.path.join(work, "impl"))
+        res = {"cases": [c["id"] for c in cases], "mismatches": [], "oracle_failures": [], "samples": [],
+               "findings_seen": {}, "stats": {}}
+        bycase = {c["id"]: c for c in cases}
+        dist = Counter()
+        nontrivial = 0
+        crate = "cache/src/foo-1.0.0/"
+        for cid, o in obs.items():
+            case = bycase[cid]
+            if o["status"] != "ok":
+                res["mismatches"].append({"id": cid, "why": f"harness {o['status']}: {str(o.get('panic') or o.get('error'))[:300]}", "case": case})
+                continue
+            before = o["before"]
+            steps = o["steps"]
+            ref_tree = {k: v for k, v in steps[2]["tree"].items() if k.startswith(crate)}
+            ref_ok = steps[2]["result"] == "ok"
+            dist[tuple(s["result"].split()[0] for s in steps)] += 1
+            if case.get("truncate_at") or any(e["path"].startswith(("..", "/")) or ".." in e["path"] or e["path"].endswith(".cargo-ok")
+                                               or e.get("kind") in ("symlink", "hardlink") for e in case["entries"]):
+                nontrivial += 1
+
+            def fail(what):
+                res["oracle_failures"].append({"id": cid, "what": what, "finding": None, "case": case})
+            for k, s in enumerate(steps):
+                t = s["tree"]
+                # (1) confinement
+                for path, v in t.items():
+                    if path.startswith(crate) or path == crate[:-1] + "/":
+                        continue
+                    if path.startswith("cache/") and not path.startswith("cache/src/"):
+                        continue                      # the cache's own bookkeeping files
+                    if path.startswith("cargo-home"):
+                        continue
+                    if before.get(path) != v:
+                        fail(f"step {k}: {path!r} outside the crate's directory was created or modified ({before.get(path)!r} -> {v!r})")
+                for path, v in before.items():
+                    if path not in t and not path.startswith(crate):
+                        fail(f"step {k}: {path!r} outside the crate's directory was removed")
+                # (2) a handed-out directory is a complete unpack
+                marker = t.get(crate + ".cargo-ok")
+                here = {p: v for p, v in t.items() if p.startswith(crate)}
+                if s["result"] == "ok":
+                    if ref_ok and here != ref_tree:
+                        extra = sorted(set(here.items()) ^ set(ref_tree.items()))[:3]
+                        fail(f"step {k}: the source directory handed out differs from a complete unpack of the archive: {extra}")
+                elif marker == "file:ok":
+                    fail(f"step {k}: unpacking failed ({s['result'][:60]}) but the directory keeps a valid completion marker")
+            # (3) after an interruption the retry succeeds whenever a clean unpack does
+            if ref_ok and steps[1]["result"] != "ok":
+                fail(f"the retry after an interrupted unpack failed ({steps[1]['result'][:80]}) although a clean unpack succeeds")
+            if len(res["samples"]) < 2:
+                res["samples"].append({"id": cid, "entries": [e["path"] for e in case["entries"]], "truncate_at": case.get("truncate_at"),
+                                       "results": [s["result"][:50] for s in steps]})
+        res["nontrivial"] = nontrivial
+        res["stats"] = {"harness_status": dict(Counter(o["status"] for o in obs.values())),
+                        "results": {" / ".join(k): v for k, v in dist.items()}, "compared": 0}
+        return res
+
+
 import hist  # noqa: E402
 
 
@@ -1800,7 +1902,7 @@ class C13(HistorySpec):
     assumptions = C09.assumptions
 
 
-REGISTRY = {c.pid: c for c in [C01, C02, C04, C05, C06, C07, C08, C09, C10, C11, C12, C13, C14, C15, C16, C17]}
+REGISTRY = {c.pid: c for c in [C01, C02, C04, C05, C06, C07, C08, C09, C10, C11, C12, C13, C14, C15, C16, C17, C19]}
 
 
 def get(pid):
